@@ -20,6 +20,8 @@ def gen(rng):
     vs = rng.sample(PLAIN_VARS, rng.randint(1, 3))
     ts = rng.sample(PLAIN_TERS, rng.randint(1, 3))
     ts = [t for t in ts if t not in vs] or ["a"]
+    if rng.random() < 0.2:
+        ts.append(rng.choice(vs))           # a terminal spelled like a variable is another symbol (plain tokens too)
     if adv:
         (vs if rng.random() < 0.5 else ts).append(rng.choice(ADV_TOKENS))
         if rng.random() < 0.3:
